@@ -411,29 +411,23 @@ class MultipartRelatedConsolidator(ConsolidatorBase):
             """
             flags, width, precision, type_char = match.groups()
 
-            # Handle the flags
-            flag_str = ""
-            if "-" in flags:
-                flag_str = "<"  # Left-align
-            if "+" in flags:
-                flag_str += "+"  # Show positive sign
-            elif " " in flags:
-                flag_str += " "  # Space before positive numbers
-            if "0" in flags:
-                flag_str += "0"  # Zero padding
+            # Sign of non-negative numbers: "+" takes precedence over " " (as in printf)
+            sign_str = "+" if "+" in flags else (" " if " " in flags else "")
 
-            # Build width and precision if they exist
-            width_str = width if width else ""
-            precision_str = f".{precision}" if precision else ""
+            if precision:
+                # The precision is the minimum number of digits, padded with zeros on the left; printf ignores
+                # the "0" flag then. E.g. "%6.6d" and "%.6d" are converted to "{:06d}", "%+.3d" to "{:+04d}".
+                # NOTE: a width larger than the precision would need additional padding with spaces, which can
+                # not be expressed in a single new-style specifier; the number is zero-padded to the width then.
+                num_chars = max(int(precision) + len(sign_str), int(width or 0))
+                return f"{{:{sign_str}0{num_chars}{type_char}}}"
 
-            # Handle cases like "%6.6d", which should be converted to "{:06d}"
-            if precision and width:
-                flag_str = "0"
-                precision_str = ""
-                width_str = str(max(precision, width))
+            # Left-justification only matters if there is a width, and it overrides zero-padding (as in printf)
+            align_str = "<" if ("-" in flags and width) else ""
+            zero_str = "0" if ("0" in flags and "-" not in flags) else ""
 
             # Construct the new-style format specifier
-            return f"{{:{flag_str}{width_str}{precision_str}{type_char}}}"
+            return f"{{:{align_str}{sign_str}{zero_str}{width or ''}{type_char}}}"
 
         self.template = (
             self._sres_parameters["template"]
